@@ -952,6 +952,7 @@ pub fn run(cases_path: &str, out_path: &str) {
     let mut nontrivial = 0usize;
     let mut viol: Vec<Value> = vec![];
     let mut samples: Vec<Value> = vec![];
+    let mut sigs: std::collections::HashMap<String, usize> = Default::default();
     for line in txt.lines() {
         let l = line.trim_end();
         let body = match l.strip_prefix("<<\"CASE\", \"").and_then(|x| x.strip_suffix("\">>")) {
@@ -974,7 +975,17 @@ pub fn run(cases_path: &str, out_path: &str) {
             if samples.len() < 3 && faulty && n % 211 == 0 {
                 samples.push(json!({"case": c, "variant": v}));
             }
-            if !errs.is_empty() && viol.len() < 40 {
+            // keep a few per (constructor, set of categories): a check that looks at some categories only must still
+            // find its own among many discrepancies of another kind
+            let sig = {
+                let mut cats: Vec<&str> = errs.iter().map(|e| e.split(']').next().unwrap_or("")).collect();
+                cats.sort();
+                cats.dedup();
+                format!("{}|{}", c["ctor"].as_str().unwrap_or(""), cats.join(""))
+            };
+            let seen = sigs.entry(sig).or_insert(0usize);
+            *seen += 1;
+            if !errs.is_empty() && *seen <= 5 && viol.len() < 400 {
                 let mut cc = c.clone();
                 cc["leak_ok"] = json!(cc["leak_ok"].as_array().map(|a| a.iter().take(8).cloned().collect::<Vec<_>>()));
                 viol.push(json!({"case": cc, "variant": v, "errors": errs}));
